@@ -8,7 +8,9 @@ package downloader
 // processNodeData, commit) synchronously.
 
 import (
+	"math/big"
 	"sort"
+	"time"
 
 	"github.com/youchainhq/go-youchain/common"
 	"github.com/youchainhq/go-youchain/core/types"
@@ -123,3 +125,106 @@ func (v *VerifTrieSync) Process(peerID string, response [][]byte, dropped bool) 
 	req.dropped = dropped
 	return v.s.process(req)
 }
+
+// ---------------------------------------------------------------------------------
+// the real trieSync.run()/loop() with the harness in the place of runTrieSync
+
+// verifNullPeer is a network peer that never answers by itself; the harness answers.
+type verifNullPeer struct{}
+
+func (verifNullPeer) Head() (common.Hash, *big.Int)                                 { return common.Hash{}, new(big.Int) }
+func (verifNullPeer) Origin() *big.Int                                              { return new(big.Int) }
+func (verifNullPeer) RequestHeadersByHash(common.Hash, int, int, bool, bool) error  { return nil }
+func (verifNullPeer) RequestHeadersByNumber(uint64, int, int, bool, bool) error     { return nil }
+func (verifNullPeer) RequestBodies([]common.Hash) error                             { return nil }
+func (verifNullPeer) RequestReceipts([]common.Hash) error                           { return nil }
+func (verifNullPeer) RequestNodeData(kind types.TrieKind, hashes []common.Hash) error { return nil }
+
+// VerifLoop runs the real trieSync.run() (loop + deferred final commit) in one
+// goroutine; the harness plays runTrieSync: it takes the requests the loop tracks on
+// Downloader.trackTrieReq and hands finished requests to trieSync.deliver.
+type VerifLoop struct {
+	s        *trieSync
+	d        *Downloader
+	pending  *trieReq
+	exited   chan struct{}
+	panicVal interface{}
+}
+
+// VerifStartLoop creates the sync as syncState/commonSyncTrie do and starts run().
+func VerifStartLoop(kind types.TrieKind, db youdb.Database, sched *trie.Sync, peerID string) *VerifLoop {
+	d := &Downloader{
+		peers:         newPeerSet(),
+		trackTrieReq:  make(chan *trieReq),
+		cancelCh:      make(chan struct{}),
+		rttEstimate:   uint64(rttMaxEstimate),
+		rttConfidence: uint64(1000000),
+	}
+	d.dropPeer = func(id string) { d.peers.Unregister(id) }
+	d.peers.Register(newPeerConnection(peerID, verifNullPeer{}, logging.New("peer", peerID)))
+	l := &VerifLoop{s: newTrieSync(d, kind, db, sched), d: d, exited: make(chan struct{})}
+	go func() {
+		defer close(l.exited)
+		defer func() {
+			if r := recover(); r != nil {
+				l.panicVal = r
+			}
+		}()
+		l.s.run()
+	}()
+	return l
+}
+
+// Next waits for the next request of the loop ("request"), its end ("done"), a panic
+// inside it ("panic") or the safety timeout ("timeout").
+func (l *VerifLoop) Next(timeout time.Duration) ([]common.Hash, string) {
+	t := time.NewTimer(timeout)
+	defer t.Stop()
+	select {
+	case req := <-l.d.trackTrieReq:
+		l.pending = req
+		return append([]common.Hash(nil), req.items...), "request"
+	case <-l.s.done:
+		<-l.exited
+		return nil, "done"
+	case <-l.exited:
+		if l.panicVal != nil {
+			return nil, "panic"
+		}
+		return nil, "done"
+	case <-t.C:
+		return nil, "timeout"
+	}
+}
+
+// Respond finishes the pending request with the response (nil = timed out).
+func (l *VerifLoop) Respond(response [][]byte, timeout time.Duration) string {
+	req := l.pending
+	if req == nil {
+		return "norequest"
+	}
+	l.pending = nil
+	req.response = response
+	t := time.NewTimer(timeout)
+	defer t.Stop()
+	select {
+	case l.s.deliver <- req:
+		return "ok"
+	case <-l.exited:
+		return "done"
+	case <-t.C:
+		return "timeout"
+	}
+}
+
+// Cancel is trieSync.Cancel (without blocking for ever if the loop panicked).
+func (l *VerifLoop) Cancel() {
+	l.s.cancelOnce.Do(func() { close(l.s.cancel) })
+	<-l.exited
+}
+
+// Err is what Wait() reports; valid after Next returned "done" or after Cancel.
+func (l *VerifLoop) Err() error { return l.s.err }
+
+// PanicValue is the value a panic inside the loop goroutine carried (nil if none).
+func (l *VerifLoop) PanicValue() interface{} { return l.panicVal }
